@@ -10,6 +10,7 @@ import GocoinV.Proofs.C11
 import GocoinV.Proofs.C11Live
 import GocoinV.Proofs.C11Fan
 import GocoinV.Proofs.C11Own
+import GocoinV.Proofs.C11Thread
 namespace GocoinV.Props.C11
 open GocoinV.Conc GocoinV.ConcEv GocoinV.Proofs.C11 GocoinV.Proofs.C11Own
 
@@ -284,5 +285,43 @@ example : (Own.Collect.run (Own.Collect.init 2 false) [.main, .main, .main, .wor
 /-- (i) started as soon as its own input is resolved, a worker can read the array while later entries are still missing. -/
 theorem early_spawn_counterexample :
     (Own.Collect.run (Own.Collect.init 2 true) [.main, .worker 0, .main]).views = [(0, 1)] := by decide
+
+/-! ## which goroutine may start a snapshot (Model/ConcThread.lean) -/
+
+/-- The snapshot protocol is proved for saves that are started by the goroutine that commits.  That this is how the node uses
+    it is a fact about the CALLERS, regenerated from the whole client on every run (gen_c11, thread.go): no call site of
+    UnspentDB.Save / Idle / Close / CommitBlockTxs / UndoBlockTxs / PurgeUnspendable / DefragMap / AbortWriting can be executed by a goroutine other
+    than the main one — not through a `go` statement, an HTTP / timer callback, nor through an entry of the text UI's command
+    table whose flag lets the UI goroutine run the handler itself — and the analysis does reach the block path, the idle timer,
+    the operator's save command and Close on the main goroutine. -/
+theorem source_thread_facts : Thread.threadFacts = Thread.threadFactsOK := by decide +kernel
+
+/-- sanity of the fact on hand-made lists: one call site that another goroutine can reach fails it -/
+example : (Thread.threadFactsOf [("Save", 0), ("Idle", 0), ("Close", 0), ("CommitBlockTxs", 0), ("UndoBlockTxs", 0), ("Save", 1)]).committerOnly = false := by decide
+
+/-- (c') The snapshot protocol extended by a foreign goroutine that may call `Save()` directly at any point of the schedule:
+    as long as that goroutine never does (`foreignSaves = 0` — fact `committerOnly` of the source), every file that reaches the
+    name UTXO.db is good under EVERY schedule — the extended system then is `Snap` and this is `snapshot_atomic`. -/
+theorem committer_started_saves_atomic (mp : List Snap.MOp) (xp : List Snap.XOp) (cap : Nat) (ls : List Thread.Lab)
+    (v : Snap.Visible) (hv : v ∈ (Thread.run (Thread.init mp xp cap 0) ls).base.visible) : v.good = true := by
+  have h := (GocoinV.Proofs.C11Thread.run_no_foreign (Thread.init mp xp cap 0) ls rfl rfl).1
+  rw [h] at hv
+  exact snapshot_atomic mp xp cap (Thread.baseLabs ls) v hv
+
+example : ((Thread.run (Thread.init [.commit, .idle] [] 2 0)
+      ((List.replicate 15 (.base .m)) ++ [.foreign, .base .sStep, .base (.sBegin 2), .foreign] ++
+        (List.replicate 4 (.base .sStep)) ++ (List.replicate 4 (.base .fStep)))).base.visible
+        = [{ hv := 2, hst := true, tot := 2, content := [2, 2] }]) := by decide
+
+/-- (c') ONE direct Save() by another goroutine breaks it: the commit has passed its abortWriting (no save was running) and has
+    applied the first half of the block when the foreign goroutine starts a saver; the saver reads the header in that
+    half-applied state, the chunk after the commit finished, nobody aborts it, and the file is renamed to UTXO.db — header
+    of one state, content of another. -/
+theorem foreign_save_counterexample :
+    (Thread.run (Thread.init [.commit] [] 2 1)
+      (List.replicate 5 (.base .m) ++ List.replicate 5 .foreign ++ [.base .sStep, .base (.sBegin 1), .base .m] ++
+        List.replicate 5 (.base .sStep) ++ List.replicate 3 (.base .fStep))).base.visible
+      = [{ hv := 1, hst := false, tot := 1, content := [2] }] ∧
+    Snap.Visible.good { hv := 1, hst := false, tot := 1, content := [2] } = false := by decide
 
 end GocoinV.Props.C11
